@@ -49,12 +49,13 @@ type c10Obs struct {
 	t3                   uint64
 	maxMiss              uint32
 	tlr                  bool
+	exit                 uint32
 }
 
 var c10Debug = os.Getenv("VERIF_TRACE") != ""
 
 func c10Observe(a *Association) c10Obs {
-	o := c10Obs{cwnd: a.CWND(), ssthresh: a.ssthresh, rwnd: a.RWND(), inFR: a.inFastRecovery, t3: a.stats.getNumT3Timeouts(), tlr: a.tlrActive}
+	o := c10Obs{cwnd: a.CWND(), ssthresh: a.ssthresh, rwnd: a.RWND(), inFR: a.inFastRecovery, t3: a.stats.getNumT3Timeouts(), tlr: a.tlrActive, exit: a.fastRecoverExitPoint}
 	q := a.inflightQueue
 	for i := 0; i < q.chunks.Len(); i++ {
 		if c := q.chunks.At(i); !c.acked && c.missIndicator > o.maxMiss {
@@ -247,6 +248,13 @@ func c10Scenario(cfg c10Cfg, seq []int) *Scenario {
 					if after.cwnd != want && !rackToo {
 						m.Failf("cwnd.fastrtx", "%s: loss signalled by three gap reports but cwnd went %d -> %d, want %d", where, before.cwnd, after.cwnd, want)
 					}
+				} else if before.inFR && after.inFR && before.exit != after.exit {
+					// one recovery episode ended and the next began within this event: the entry rule
+					// (RFC 4960 7.2.3) applies to the new one, it may sit on the 4 MTU floor
+					if lim := max(before.cwnd, 4*mtu, cfg.minCwnd); after.cwnd > lim {
+						m.Failf("cwnd.fr-growth", "%s: a new recovery episode began with cwnd %d -> %d (more than the window before and the 4 MTU floor)", where, before.cwnd, after.cwnd)
+					}
+					modelFR, modelExit = true, a.myNextTSN-1
 				} else if before.inFR && after.inFR && after.cwnd > before.cwnd {
 					m.Failf("cwnd.fr-growth", "%s: cwnd grew %d -> %d while in fast recovery", where, before.cwnd, after.cwnd)
 				}
